@@ -9,7 +9,7 @@
    denotes ([phys_id]: no symbolic links); [r_failed_early r]: the log has
    errors when the write phase starts (scan, link, overwrite/duplicate checks,
    cancellation); [r_errors r]: the build reports errors (also on-end errors). *)
-From V Require Import Common.Base C17.WriteSM C17.Spec C17.Proofs C17.CompileProofs C17.DiskProofs C17.SpecProofs C17.IOFail C17.PathModel C17.PathProofs C17.RelProofs C17.LinkProofs C17.Modes C17.IOHist C17.Cancel C17.Findings.
+From V Require Import Common.Base C17.WriteSM C17.Spec C17.Proofs C17.CompileProofs C17.DiskProofs C17.SpecProofs C17.IOFail C17.PathModel C17.PathProofs C17.RelProofs C17.SideProofs C17.LinkProofs C17.Modes C17.IOHist C17.Cancel C17.Findings.
 
 (* ---- mechanism: validateBuildOptions ---- *)
 Theorem allow_overwrite_forced_only_without_write :
@@ -535,3 +535,67 @@ Theorem backslash_in_name_escapes_refuted :
     firstn (List.length (clean_segs outdir)) (clean_segs out) <> clean_segs outdir.
 Proof. exact backslash_in_name_escapes_refuted_w. Qed.
 Print Assumptions backslash_in_name_escapes_refuted.
+
+(* ---- side files (external source map ".map", external/linked legal comments
+   ".LEGAL.txt") and outfile mode; paths tied by the sidepath / outfile
+   correspondence.  The metafile is returned, not written, by the API; the
+   CLI's metafile and mangle-cache writes are exercised by the oracle. ---- *)
+
+(* a side file is inside the output directory whenever its chunk is *)
+Theorem side_file_inside_outdir :
+  forall outdir relp suffix,
+    is_rooted outdir = true -> no_dotdot_seg relp = true -> sfree suffix -> (3 <= length suffix)%nat ->
+    side_out_path outdir relp suffix =
+    SL :: join_with SL (clean_segs outdir ++ filter proper (split_on SL (relp ++ suffix))).
+Proof. exact side_inside. Qed.
+Print Assumptions side_file_inside_outdir.
+
+(* side files are ordinary output files for the overwrite check: whatever file
+   the linker produces (chunk, asset, source map, legal comments) on a path
+   that is an input under esbuild's comparison makes Compile report an error
+   unless overwriting is allowed.  Replayed: input src/a.js.map (file loader)
+   next to output src/a.js with an external source map is refused. *)
+Theorem side_file_not_an_input :
+  forall opt oc o,
+    cancel_early oc = false -> to_stdout opt = false -> effective_allow opt = false ->
+    In o (linked oc) -> In (ckey o) (map canon (inputs oc)) ->
+    snd (compile opt oc) = true.
+Proof. exact any_linked_on_input_refused. Qed.
+Print Assumptions side_file_not_an_input.
+
+(* ---- templates for which "no parent-directory segment in the rendered path"
+   is proved from the ingredients, without a hypothesis on the rendered text.
+   For the default templates nothing about the entry's name is needed: even a
+   name ".." ends up as "...js".  (For arbitrary templates the rendered-text
+   hypothesis of the *_output_inside_outdir theorems stays; finding L shows it
+   cannot be dropped: with "[name]/x" the hypothesis "no entry base name is
+   '..'" is exactly what is missing.) ---- *)
+Theorem default_entry_output_inside_outdir :
+  forall outdir outbase entry custom hash ext,
+    is_rooted outdir = true -> is_rooted outbase = true ->
+    let custom2 := match custom with [] => auto_output_path outbase entry | _ => custom end in
+    is_rooted (effective_abs outbase entry false custom2) = true ->
+    no_bs (effective_abs outbase entry false custom2) = true ->
+    sfree (snd (path_relative_to_outbase outbase entry false custom2)) ->
+    sfree ext -> (3 <= length ext)%nat ->
+    entry_out_path outdir default_entry_template outbase entry custom hash ext =
+    SL :: join_with SL (clean_segs outdir ++ filter proper (split_on SL (entry_rel_path default_entry_template outbase entry custom hash ext))).
+Proof. exact default_entry_inside. Qed.
+Print Assumptions default_entry_output_inside_outdir.
+
+Theorem default_chunk_output_inside_outdir :
+  forall outdir hash ext,
+    is_rooted outdir = true -> sfree hash -> sfree ext -> ext <> [] ->
+    chunk_out_path outdir default_asset_template hash ext =
+    SL :: join_with SL (clean_segs outdir ++ filter proper (split_on SL (chunk_rel_path default_asset_template hash ext))).
+Proof. exact default_chunk_inside. Qed.
+Print Assumptions default_chunk_output_inside_outdir.
+
+Theorem default_asset_output_inside_outdir :
+  forall outdir outbase asset hash,
+    is_rooted outdir = true ->
+    sfree (snd (path_relative_to_outbase outbase asset false [])) -> sfree hash -> sfree (pi_ext asset) ->
+    asset_out_path outdir default_asset_template outbase asset hash =
+    SL :: join_with SL (clean_segs outdir ++ filter proper (split_on SL (asset_rel_path default_asset_template outbase asset hash))).
+Proof. exact default_asset_inside. Qed.
+Print Assumptions default_asset_output_inside_outdir.
